@@ -10,9 +10,9 @@ pub const COND_TOKS_WIDE: [&str; 26] = [
     "$a", "$ab", "$", "and", "AND", "&&", "or", "OR", "||", "not", "!", "(", ")", "all", "any", "none", "of", "them", "0", "1", "42",
     "99999999999999999999999999", "x", "-", "them$a", " ",
 ];
-pub const MATCH_TOKS: [&str; 36] = [
+pub const MATCH_TOKS: [&str; 40] = [
     ".x", ".", "x", ".\"a b\"", "\"", "==", "is", "<", "<=", "=", ">", ">=", "~=", "&=", "'a'", "\"b\"", "'1'", "'1.5'", "'['", "'", "none",
-    "some", "true", "false", "@", "@.y", "rule(", "r1", ")", "garbage", "'none'", "\"true\"", "'False'", "'SOME'", "'a@.b'", "\"rule(x) @.y\"",
+    "some", "true", "false", "@", "@.y", "rule(", "r1", ")", "garbage", "'none'", "\"true\"", "'False'", "'SOME'", "'a@.b'", "\"rule(x) @.y\"", "'a  b'", "'a b'", "\t", "'0x0x40'",
 ];
 
 fn join(toks: &[&str], mask: u32) -> String {
@@ -105,7 +105,7 @@ fn cond_case(s: String, tag: &str) -> Value {
 fn match_case(s: String, tag: &str) -> Value {
     // tables for every quoted literal that may appear: the fixed ones, and every substring of `s` that lies between
     // two quote characters (lone quote tokens can enclose anything, e.g. `' '`)
-    let mut lits: Vec<String> = ["a", "b", "1", "1.5", "[", "none", "some", "true", "false", "", "a' 'a", "1' '1", "False", "SOME", "True", "NONE", "a@.b", "rule(x) @.y"].iter().map(|x| x.to_string()).collect();
+    let mut lits: Vec<String> = ["a", "b", "1", "1.5", "[", "none", "some", "true", "false", "", "a' 'a", "1' '1", "False", "SOME", "True", "NONE", "a@.b", "rule(x) @.y", "a  b", "a b", "0x0x40"].iter().map(|x| x.to_string()).collect();
     let cs: Vec<(usize, char)> = s.char_indices().collect();
     for (a, (i, c)) in cs.iter().enumerate() {
         if *c == '\'' || *c == '"' {
